@@ -104,22 +104,27 @@ def bkreprst_memsp : Exec Unit := restoreBlockRepeat .sp
 def bkrepsto_ArRn2 (a : Nat) : Exec Unit := do storeBlockRepeat (.rn (← getArRnUnit a))
 def bkrepsto_memsp : Exec Unit := storeBlockRepeat .sp
 
+/-- The six independent exchanges of `banke` as functions on the register file
+(`std::swap` of a register with its bank copy; `stepi0`/`stepj0` only when `stp16` is set). -/
+def bkI (r : Regs) : Regs :=
+  let r := { r with stepi := r.stepib, stepib := r.stepi, modi := r.modib, modib := r.modi }
+  if r.stp16 != 0 then { r with stepi0 := r.stepi0b, stepi0b := r.stepi0 } else r
+def bkJ (r : Regs) : Regs :=
+  let r := { r with stepj := r.stepjb, stepjb := r.stepj, modj := r.modjb, modjb := r.modj }
+  if r.stp16 != 0 then { r with stepj0 := r.stepj0b, stepj0b := r.stepj0 } else r
+def bkR4 (r : Regs) : Regs := { r with r := r.r.set 4 r.r4b, r4b := r.r[4] }
+def bkR1 (r : Regs) : Regs := { r with r := r.r.set 1 r.r1b, r1b := r.r[1] }
+def bkR0 (r : Regs) : Regs := { r with r := r.r.set 0 r.r0b, r0b := r.r[0] }
+def bkR7 (r : Regs) : Regs := { r with r := r.r.set 7 r.r7b, r7b := r.r[7] }
+
 def banke_BankFlags (flags : Nat) : Exec Unit := do
   let f := BankFlags.decode flags
-  if f.cfgi then
-    modifyRegs fun r => { r with stepi := r.stepib, stepib := r.stepi }
-    modifyRegs fun r => { r with modi := r.modib, modib := r.modi }
-    if (← getRegs).stp16 != 0 then
-      modifyRegs fun r => { r with stepi0 := r.stepi0b, stepi0b := r.stepi0 }
-  if f.r4 then modifyRegs fun r => { r with r := r.r.set 4 r.r4b, r4b := r.r[4] }
-  if f.r1 then modifyRegs fun r => { r with r := r.r.set 1 r.r1b, r1b := r.r[1] }
-  if f.r0 then modifyRegs fun r => { r with r := r.r.set 0 r.r0b, r0b := r.r[0] }
-  if f.r7 then modifyRegs fun r => { r with r := r.r.set 7 r.r7b, r7b := r.r[7] }
-  if f.cfgj then
-    modifyRegs fun r => { r with stepj := r.stepjb, stepjb := r.stepj }
-    modifyRegs fun r => { r with modj := r.modjb, modjb := r.modj }
-    if (← getRegs).stp16 != 0 then
-      modifyRegs fun r => { r with stepj0 := r.stepj0b, stepj0b := r.stepj0 }
+  if f.cfgi then modifyRegs bkI
+  if f.r4 then modifyRegs bkR4
+  if f.r1 then modifyRegs bkR1
+  if f.r0 then modifyRegs bkR0
+  if f.r7 then modifyRegs bkR7
+  if f.cfgj then modifyRegs bkJ
 
 def bankr : Exec Unit := modifyRegs swapAllArArpPure
 
